@@ -507,3 +507,32 @@ theorem no_pre_pass_elsewhere (d : Gen.D) (h1 : d ≠ .DB2) (h2 : d ≠ .HIVE) (
 #guard (match PM.parseStatementsText .DB2 "SELECT CURRENT DATE FROM t".toList, PM.parseStatementsText .DB2 "SELECT CURRENT_DATE FROM t".toList with
   | .ok [.select p], .ok [.select q] => Drv.showVal p.toVal == Drv.showVal q.toVal | _, _ => false)
 end C13
+
+/-! ### the prefix NOT position, for EVERY token list (not only the fragment) -/
+namespace C13
+/-- Hive: at the NOT level the word `!` and the word `NOT` are treated alike, whatever follows -/
+theorem hive_bang_prefix_any (f : Nat) (ts : List Tok) : pNot .HIVE f (opTok "!" :: ts) = pNot .HIVE f (opTok "NOT" :: ts) := by
+  cases f with
+  | zero => rfl
+  | succ g =>
+    have h1 : (Gen.notSet .HIVE).contains (up (opTok "!").src) = true := by decide
+    have h2 : (Gen.notSet .HIVE).contains (up (opTok "NOT").src) = true := by decide
+    conv => lhs; unfold pNot
+    conv => rhs; unfold pNot
+    simp only [h1, h2, if_true]
+/-- every other dialect: at the NOT level `!` is no NOT word — the whole token list goes on to the comparison level (where `!` is the unary
+operator of the compute level) -/
+theorem bang_is_no_not_elsewhere (d : Gen.D) (h : d ≠ .HIVE) (f : Nat) (ts : List Tok) :
+    pNot d (f + 1) (opTok "!" :: ts) = pCompare d f (opTok "!" :: ts) := by
+  have h1 : (Gen.notSet d).contains (up (opTok "!").src) = false := by cases d <;> first | exact absurd rfl h | decide
+  conv => lhs; unfold pNot
+  simp only [h1, Bool.false_eq_true, if_false]
+/-- the look-ahead of the keyword-predicate level treats `!` and `NOT` alike in Hive too (`parser.py:902`) — but see
+`witness_hive_bang_before_in`: the compute level in front of it never leaves a `!` for it -/
+theorem hive_skipNot_bang (r : List Tok) : skipNot .HIVE (opTok "!" :: r) = (true, r) ∧ skipNot .HIVE (opTok "NOT" :: r) = (true, r) := by
+  have h1 : (Gen.notSet .HIVE).contains (up (opTok "!").src) = true := by decide
+  have h2 : (Gen.notSet .HIVE).contains (up (opTok "NOT").src) = true := by decide
+  simp only [skipNot, h1, h2, if_true, and_self]
+/-- why it is never reached: `!` is a compute operator, so the compute loop in front of the keyword level always consumes it -/
+theorem bang_is_compute_operator : computeOp? (up (opTok "!").src) = some ("LOGICAL_INVERSION", 2) := by decide
+end C13
